@@ -87,7 +87,7 @@ def _run_one(prog, flavour, workdir):
     return (flavour, fails, count, combos, crash, None)
 
 
-def run_programs(check, programs, max_parallel=12):
+def run_programs(check, programs, max_parallel=12, only_prefix=None):
     """compiles and runs the programs; fills the check's extra_* fields"""
     work = tempfile.mkdtemp(prefix="vfb-%s-" % check.prop, dir="/tmp")
     try:
@@ -110,6 +110,10 @@ def run_programs(check, programs, max_parallel=12):
                 k = re.sub(r"[^A-Za-z0-9_.-]+", "_", head.group(1))[:70] if head else "abnormal-exit"
                 bad.append(("%s:program-crash:%s" % (check.prop, k), crash))
             for key, detail in fails:
+                if only_prefix and not key.startswith(only_prefix + ":"):
+                    # another property's statement: that property's own check reports it
+                    check.extra_hist["other-property-failures-seen"] = check.extra_hist.get("other-property-failures-seen", 0) + 1
+                    continue
                 bad.append((key, detail))
             if bad:
                 wdir = check.outdir
